@@ -149,6 +149,9 @@ class B:
         self.wbytes = 0
         self.notes = []
         self.rlen = {}            # validated region -> concrete length
+        self.empty_filter = False
+        self.nonminimal = False   # contains a non-minimal variable byte integer (outside C04's domain)
+        self.order_free = False   # a property list with several distinct ids (wire order not prescribed)
         self.pfi = {}             # owner -> expr of the payload format indicator byte
         self.enc_assumes = []     # extra domain restrictions on the encode side (value not expressible otherwise)
 
@@ -246,7 +249,12 @@ class B:
         # packet-level scenarios keep filter content ASCII and non-shared (DESIGN 3.4)
         self.assumes.append("ascii(&%s)" % a)
         self.con("utf8_model(&%s)" % a, key + ".utf8", ("InvalidString",), "utf8", a)
-        self.con("plain_filter_bytes_ok(&%s)" % a, key + ".syntax", ("InvalidTopicFilter",), "filter", a)
+        if k == 0:
+            # [MQTT-4.7.3-1]: a topic filter is at least one character long -- shape-level malformation
+            self.con("false", key + ".empty", ("InvalidTopicFilter",))
+            self.empty_filter = True
+        else:
+            self.con("plain_filter_bytes_ok(&%s)" % a, key + ".syntax", ("InvalidTopicFilter",), "filter", a)
         self.utf8.append(a)
         self.filters.append(a)
         self.rlen[a] = k
@@ -351,7 +359,7 @@ def prop_wire_len(pid, lens):
         return 5 + lens[0] + lens[1]
 
 
-def props(b, owner, plist, pvar, len_delta=0):
+def props(b, owner, plist, pvar, len_delta=0, nonmin=False):
     """property list `plist` = [(id, lens)] in wire order for `owner`; returns ctor expr.
     Constraint side: ids not allowed for the owner / unknown ids / duplicates are *shape-level*
     malformations (the id sequence is concrete), recorded as constant-false constraints.
@@ -359,8 +367,14 @@ def props(b, owner, plist, pvar, len_delta=0):
     len_delta: the declared Property Length is (true length + len_delta)."""
     total = sum(2 if pid == "raw" else prop_wire_len(pid, l) for pid, l in plist)
     declared = total + len_delta
-    for d in varint_bytes(declared):
-        b.put(d)
+    if nonmin:
+        # a two-byte spelling of a value below 128 (not minimal; accepted by the decoders' var-int reader)
+        assert declared < 128
+        b.put(0x80 | declared, 0x00)
+        b.nonminimal = True
+    else:
+        for d in varint_bytes(declared):
+            b.put(d)
     if len_delta < 0:
         # the last property runs past the declared length: InvalidPropertyLength(declared)
         b.con("false", "prop.length", ("InvalidPropertyLength", str(declared)))
@@ -373,6 +387,10 @@ def props(b, owner, plist, pvar, len_delta=0):
     seen = set()
     nuser = 0
     stop = False
+    # the order of *different* properties on the wire is the encoder's free choice: shapes whose list
+    # holds more than one distinct id are compared by length only on the encode side
+    if len(set(pid for pid, _ in plist)) > 1:
+        b.order_free = True
     for pid, l in plist:
         if pid == "raw":
             b.put(l)
@@ -865,11 +883,11 @@ def v5_codes(typ, n=1, plist=()):
     return Shape("v5", typ, "%s_%d%s" % (typ.lower(), n, pl_name(plist)), ctrl, b, "mp::v5::Packet::%s(p)" % typ, ctor)
 
 
-def v5_unsubscribe(lens=(1,), plist=(), pd=0):
+def v5_unsubscribe(lens=(1,), plist=(), pd=0, nonmin=False):
     b = B("v5")
     pid = _pid(b, "unsubscribe.pid")
     b.chk("p.pid.value() == %s" % pid, "unsubscribe.pid")
-    pctor, _ = props(b, "Unsubscribe", list(plist), "p.properties", pd)
+    pctor, _ = props(b, "Unsubscribe", list(plist), "p.properties", pd, nonmin)
     if not lens:
         b.con("false", "unsubscribe.empty", ("EmptySubscription",))
     items = []
@@ -878,8 +896,8 @@ def v5_unsubscribe(lens=(1,), plist=(), pd=0):
         b.chk("p.topics.len() == %d && eq_bytes(p.topics[%d].as_bytes(), &%s)" % (len(lens), i, f), "unsubscribe.topic%d" % i)
         items.append("mp::TopicFilter::try_from(%s).unwrap()" % s_of(f))
     ctor = "mp::v5::Packet::Unsubscribe(mp::v5::Unsubscribe { pid: mp::Pid::try_from(%s).unwrap(), properties: %s, topics: vec![%s] })" % (pid, pctor, ", ".join(items))
-    name = ("unsubscribe_" + "_".join(map(str, lens)) if lens else "unsubscribe_none") + pl_name(plist) + ("_pdm%d" % -pd if pd < 0 else "")
-    return Shape("v5", "Unsubscribe", name, 0xA2, b, "mp::v5::Packet::Unsubscribe(p)", ctor if lens else None)
+    name = ("unsubscribe_" + "_".join(map(str, lens)) if lens else "unsubscribe_none") + pl_name(plist) + ("_pdm%d" % -pd if pd < 0 else "") + ("_nonmin" if nonmin else "")
+    return Shape("v5", "Unsubscribe", name, 0xA2, b, "mp::v5::Packet::Unsubscribe(p)", ctor if lens and not nonmin else None, canonical=not nonmin)
 
 
 def v5_disconnect(form="empty", plist=(), zero=None):
@@ -1327,6 +1345,8 @@ def emit_agree(sh, tail=2):
     lines.append("    if let Ok(Some(pb)) = &rb {")
     lines += fields("pb", "blocking", "        ")
     lines.append("    }")
+    if b.empty_filter:
+        lines.append('    vassert!(ca_code.0 != 0 && cb.0 != 0, "C16|packet.empty_filter|a SUBSCRIBE/UNSUBSCRIBE carrying an empty topic filter is decoded to a packet by the blocking/async decoder although the constructor rejects the empty filter");')
     lines.append("    done(rs); done(ra); done(rb);")
     lines.append("}")
     unwind = max(max_loop(sh), 6) + 2
@@ -1406,3 +1426,40 @@ def emit_reenc(sh, prop="C11"):
     unwind = max(max_loop(sh), BL, 6) + 2
     meta = {"name": fn, "family": fam, "type": sh.typ, "shape": sh.name, "frame_len": L, "mode": "decode then re-encode (body level)", "canonical": sh.canonical}
     return fn, "\n".join(lines) + "\n", b.wbytes, unwind, meta
+
+
+STUBS_FAULT = [
+    "#[kani::stub(<mqtt_proto_sync::Error as std::convert::From<std::io::Error>>::from, crate::model::from_io_kind_stub)]",
+    "#[kani::stub(simdutf8::basic::from_utf8, crate::model::from_utf8_class_stub)]",
+    "#[kani::stub(mqtt_proto_sync::TopicName::is_invalid, crate::model::topic_name_class_stub)]",
+    "#[kani::stub(mqtt_proto_sync::TopicFilter::is_invalid, crate::model::topic_filter_class_stub)]",
+]
+
+
+def emit_fault(sh):
+    """C14: a read error injected at every byte position of a valid encoding makes the async decoder
+    return an I/O error of that kind (never a packet, a protocol error or 'incomplete')"""
+    fam = sh.fam
+    L = sh.total_len
+    fn = "%s_%s__rdfault" % (fam, sh.name)
+    lines = _prelude(sh, fn, assume_valid=True)
+    pat = "mp::Error::IoError(k, _)" if fam == "v3" else "mp::v5::ErrorV5::Common(mp::Error::IoError(k, _))"
+    lines += [
+        "    let mut limit = 0;",
+        "    while limit < %d {" % L,
+        "        let mut rd = fe::FaultRd { data: &frame, pos: 0, limit, kind: std::io::ErrorKind::ConnectionReset };",
+        "        let r = dec!(mp::%s::Packet::decode_async(&mut rd));" % fam,
+        '        vassert!(matches!(&r, Err(%s) if *k == std::io::ErrorKind::ConnectionReset), "C14|async_decode.read_error|a read error inside a valid encoding is not surfaced by the async decoder as an I/O error of the same kind");' % pat,
+        "        done(r);",
+        "        limit += 1;",
+        "    }",
+        "    let mut rd = fe::FaultRd { data: &frame, pos: 0, limit: %d, kind: std::io::ErrorKind::ConnectionReset };" % L,
+        "    let r = dec!(mp::%s::Packet::decode_async(&mut rd));" % fam,
+        '    vassert!(r.is_ok(), "C14|async_decode.no_fault|the valid encoding does not decode when no fault is injected");',
+        '    vcover!(true, "all fault positions");',
+        "    done(r);",
+        "}",
+    ]
+    unwind = max(max_loop(sh), L, 6) + 2
+    meta = {"name": fn, "family": fam, "type": sh.typ, "shape": sh.name, "frame_len": L, "mode": "read fault at every position"}
+    return fn, "\n".join(lines) + "\n", sh.b.wbytes, unwind, meta
